@@ -3,8 +3,8 @@
 package resmgr
 
 import (
-	"strings"
 	"fmt"
+	"strings"
 
 	cfgapi "github.com/containers/nri-plugins/pkg/apis/config/v1alpha1"
 	policycfg "github.com/containers/nri-plugins/pkg/apis/config/v1alpha1/resmgr/policy"
@@ -345,7 +345,6 @@ func blScenarios(thorough bool) []*scenario {
 	return out
 }
 
-
 // ---------------------------------------------------------------------------
 // C04: memory-heavy scenarios on several NUMA layouts (nodes have 4 GiB unless stated)
 
@@ -353,8 +352,8 @@ var (
 	tM3G   = &tmpl{name: "M3G", cpuReq: 500, cpuLim: 500, memLim: 3 * giB}
 	tM2G   = &tmpl{name: "M2G", cpuReq: 500, cpuLim: 500, memLim: 2 * giB}
 	tM5G   = &tmpl{name: "M5G", cpuReq: 500, cpuLim: 500, memLim: 5 * giB}
-	tBM3G  = &tmpl{name: "BM3G", cpuReq: 300, cpuLim: 1000, memLim: 3 * giB}
-	tBM6G  = &tmpl{name: "BM6G", cpuReq: 300, cpuLim: 1000, memLim: 6 * giB}
+	tBM3G  = &tmpl{name: "BM3G", cpuReq: 300, cpuLim: 1000, memLim: 3 * giB, oomAdj: 955} // ~2.9 GiB request
+	tBM6G  = &tmpl{name: "BM6G", cpuReq: 300, cpuLim: 1000, memLim: 6 * giB, oomAdj: 910} // ~5.8 GiB request
 	tG1M1G = &tmpl{name: "G1M1G", cpuReq: 1000, cpuLim: 1000, memLim: 1 * giB}
 )
 
@@ -416,7 +415,6 @@ func c04Scenarios(thorough bool) []*scenario {
 	return out
 }
 
-
 // ---------------------------------------------------------------------------
 // C12: opted-out containers (created with a non-empty runtime cpuset no pool or balloon can produce) next to ordinary ones
 
@@ -447,6 +445,10 @@ func c12Scenarios(thorough bool) []*scenario {
 		full, ups)
 	add("ta/optout/mem-bare+widening", polTA, machine8(), std,
 		[]podSpec{pod1("p", "default", "Guaranteed", m3Pin8, map[string]string{annPreserveMem: "true"}), pod1("a", "default", "Guaranteed", tM3G, nil), pod1("b", "default", "Guaranteed", tM3G, nil)},
+		menu{stop: true, remove: true, sync: true}, nil)
+	bm3Pin8 := &tmpl{name: "BM3Gpin8", cpuReq: 300, cpuLim: 1000, memLim: 3 * giB, initCpus: "0,7", initMems: "0", oomAdj: 955} // oom_score_adj 955 of 64 GiB: a ~2.9 GiB memory request
+	add("ta/optout/mem-burstable+widening", polTA, machine8(), std,
+		[]podSpec{pod1("p", "default", "Burstable", bm3Pin8, map[string]string{annPreserveMem + "/pod": "true"}), pod1("a", "default", "Guaranteed", tM3G, nil), pod1("b", "default", "Guaranteed", tM2G, nil)},
 		menu{stop: true, remove: true, sync: true}, nil)
 	add("ta/optout/both+BE", polTA, machine8(), std,
 		[]podSpec{pod1("p", "default", "BestEffort", bePin8, map[string]string{annPreserveCPU: "true", annPreserveMem + "/pod": "true"}), pod1("a", "default", "Guaranteed", tG2, nil), pod1("b", "default", "Guaranteed", tM3G, nil)},
@@ -486,7 +488,6 @@ func c12Scenarios(thorough bool) []*scenario {
 	}
 	return out
 }
-
 
 // ---------------------------------------------------------------------------
 // C13: configuration updates (identical, rejected of every kind, valid changes) at every request boundary
@@ -564,7 +565,6 @@ func c13Scenarios(thorough bool) []*scenario {
 	return out
 }
 
-
 // ---------------------------------------------------------------------------
 // C11: restart on a previously saved cache (request boundaries and mid-request saves) x runtime truth at restart
 
@@ -592,11 +592,16 @@ func c11Scenarios(thorough bool) []*scenario {
 		{Name: "share", Namespaces: []string{"share"}, MinBalloons: 1, MinCpus: 1, ShareIdleCpusInSame: blcfg.CPUTopologyLevelSystem},
 	}
 	blp := []podSpec{nsPod("a", "dyn1", tG2, nil), nsPod("b", "dyn1", tB500, nil), nsPod("c", "share", tM3G, nil)}
+	// a same-named container created while the old one is still alive (pod re-created under the same name):
+	// the plugin releases the old instance, the runtime still reports it running after the restart
+	re := add("ta/restart/recreate-live/G2-B500", polTA, machine16(), std, pods(tG2, tB500), menu{start: true, stop: true, restart: true, recreateLive: true})
+	re.maxInc = 2
+	rb := add("bl/restart/recreate-live", polBalloons, machine8(), []cfgSpec{blCfg("dyn", defs)}, blp[:2], menu{start: true, stop: true, restart: true, recreateLive: true})
+	rb.maxInc = 2
 	add("bl/restart/truth", polBalloons, machine8(), []cfgSpec{blCfg("dyn", defs)}, blp, rt)
 	add("bl/restart/cuts", polBalloons, machine8(), []cfgSpec{blCfg("dyn", defs)}, blp, cut)
 	return out
 }
-
 
 // ---------------------------------------------------------------------------
 // C14
@@ -679,7 +684,6 @@ func c14InputCases(thorough bool) []*scenario {
 	}
 	return out
 }
-
 
 // ---------------------------------------------------------------------------
 // C19: balloon-type selection
@@ -826,7 +830,6 @@ func c19BalloonCases(thorough bool) []c19Case {
 	}
 	return out
 }
-
 
 // ---------------------------------------------------------------------------
 // C16: pool tree on a machine family x available/reserved configurations
